@@ -568,7 +568,8 @@ fn gen_tdf(rng: &mut Rng) -> TdfD {
         _ => rng.usize(13),
     };
     TdfD {
-        name: (0..name_len).map(|_| (b'a' + rng.usize(26) as u8) as char).collect(),
+        // letters, digits, punctuation - and blanks, also at the start and at the end of the name
+        name: (0..name_len).map(|_| *rng.pick(&['a', 'Z', 'q', '0', '9', ' ', ' ', '-', '_', '!', '.', 'x']) ).collect(),
         ftype,
         spaces: rng.usize(41) as u8,
         glyphs,
@@ -712,7 +713,7 @@ impl Prop for C17 {
         "C17"
     }
     fn rule(&self) -> &'static str {
-        "bitmap fonts (8 x 1..=32, 256 glyphs, 512 for PSF2; all-zero / all-one / random glyph bytes, some starting with a PSF magic number; every built-in page 0..=42 and every SAUCE font) are sent through PSF2 bytes, raw data (create_8, from_basic, from_bytes), the DCS CTerm:Font sequence fed to the real ANSI parser (also after an OSC 8 / OSC 4 / APS / sixel / macro / other font sequence on the same parser), and embedding in XBin (1 and 2 fonts), ADF, IDF and IcyDraw files written and loaded by the engine (with and without a custom palette in the same file, for IDF / ADF / one-font XBin also with the font in slot 3, every cell on page 3 and the stock font in slot 0, with and without a SAUCE record that names the stock font 'IBM VGA' while the embedded glyphs differ; IcyDraw also under empty, non-ASCII and long font names, and every built-in page and SAUCE font also as the font object itself - under its own name - in slots 0, 1, 3, 100 and 255 of an IcyDraw file, with and without the stock font in slot 0, and as the only font of an XBin picture); size, glyph count and every glyph must be bit-identical. TheDraw fonts (outline/block/colour, 0..=94 glyphs up to 30x12 - one font in eight with every glyph near that size, a glyph data block beyond 32767 bytes -, names 0..=12, spacing 0..=40, bundles of 1..=34) are written with as_tdf_bytes / create_font_bundle, checked by an independent TDF reader in the harness (writer side) and re-read with from_tdf_bytes (reader side, glyph table via hook H5). distinct_nontrivial = distinct (path, height, glyph count, data class) / (bundle size, glyph layout) fingerprints"
+        "bitmap fonts (8 x 1..=32, 256 glyphs, 512 for PSF2; all-zero / all-one / random glyph bytes, some starting with a PSF magic number; every built-in page 0..=42 and every SAUCE font) are sent through PSF2 bytes, raw data (create_8, from_basic, from_bytes), the DCS CTerm:Font sequence fed to the real ANSI parser (also after an OSC 8 / OSC 4 / APS / sixel / macro / other font sequence on the same parser), and embedding in XBin (1 and 2 fonts), ADF, IDF and IcyDraw files written and loaded by the engine (with and without a custom palette in the same file, for IDF / ADF / one-font XBin also with the font in slot 3, every cell on page 3 and the stock font in slot 0, with and without a SAUCE record that names the stock font 'IBM VGA' while the embedded glyphs differ; IcyDraw also under empty, non-ASCII and long font names, and every built-in page and SAUCE font also as the font object itself - under its own name - in slots 0, 1, 3, 100 and 255 of an IcyDraw file, with and without the stock font in slot 0, and as the only font of an XBin picture); size, glyph count and every glyph must be bit-identical. TheDraw fonts (outline/block/colour, 0..=94 glyphs up to 30x12 - one font in eight with every glyph near that size, a glyph data block beyond 32767 bytes -, names 0..=12 (letters, digits, punctuation, blanks also first and last), spacing 0..=40, bundles of 1..=34) are written with as_tdf_bytes / create_font_bundle, checked by an independent TDF reader in the harness (writer side) and re-read with from_tdf_bytes (reader side, glyph table via hook H5). distinct_nontrivial = distinct (path, height, glyph count, data class) / (bundle size, glyph layout) fingerprints"
     }
     fn meta(&self, ctx: &Ctx) -> Value {
         json!({"floor_evaluations": 1000, "floor_distinct": ctx.tier.pick(800u64, 5000u64),
